@@ -264,5 +264,5 @@ MANIFEST = {
     "text": "exploration: merged integer intervals of output and input are equal (nothing gained, nothing lost), length/order/class/platform/notes predicates hold and inputs stay untouched on thousands (quick) / 120 000 (thorough) generated lists for both address classes and platforms; refusal cases raise TypeError; a third of the cases collapse, re-address some inputs through their setters and collapse again",
     "note": "trusted: interval algebra of lib/refsem.py; minimality is not asserted; /0 results are outside the generated domain",
 }
-MANIFEST["engine"] += " + atheris (coverage-guided twins of the Hypothesis sub-checks, fuzz/fuzz_hyp.py: 2 jobs x 8 s quick, 8 jobs x 200 s thorough)"
+MANIFEST["engine"] = MANIFEST.get("engine", "hypothesis") + " + atheris (coverage-guided twins of the Hypothesis sub-checks, fuzz/fuzz_hyp.py: 2 jobs x 8 s quick, 8 jobs x 200 s thorough)"
 MANIFEST["technique"] += "; plus coverage-guided fuzzing of the same strategies (atheris/libFuzzer mutates the byte stream Hypothesis decodes into cases, the same oracle runs inside the target, findings are re-judged outside it)"
